@@ -23,10 +23,13 @@ using namespace asl;
 using vf::fmt;
 
 static int W_BADALLOC, C_EVAL, C_DIST, C_EXEC, C_POINTS, W_LEN16, W_LEN64, W_MASKED, W_FRAG, W_PING_BETWEEN, W_HOSTILE_CLOSED, W_HOSTILE_MSG, W_NEG64, W_HANDSHAKE, W_PREEMPT;
-static int W_CUT, W_CUT_INFRAME, W_CUT_MIDMSG, W_CLOSE, W_CLOSE_REASON, W_CLOSE_MID, W_PONG_IN, W_PING_EMPTY, W_PING125, W_TWO_CTL, W_ACC, W_NUL, W_NONCANON, W_BIGFRAG, W_BIGLEN, W_CHUNKED,
+static int W_CUT, W_CUT_INFRAME, W_CUT_MIDMSG, W_CLOSE, W_CLOSE_REASON, W_CLOSE_MID, W_PONG_IN, W_PING_EMPTY, W_PING125, W_TWO_CTL, W_ACC, W_NUL, W_NONCANON, W_NONCANON_ACC, W_CLOSE_REASON_RET, W_BIGFRAG, W_BIGLEN, W_CHUNKED,
 	W_RH_CLIENT, W_RH_COMPARED, W_RH_SENT, W_RH_REFUSED, W_RH_BADRESP, W_RH_RECONNECT, W_RH_SERVER, W_RH_SRV_LATER, W_RH_PRE, W_RH_BOTH,
 	W_SEND_FORMS, W_VAR, W_AKX, W_AKX_NOSPACE, W_AKX_HTTP, W_CONN, W_CONN_FAIL, W_CONN_OK, W_ECHO_BIG, W_HOSTILE_STRICT, W_PONGS_CHECKED, W_CLOSE_CODE;
 static std::string g_case;
+// the mask/key source is seeded so that replays see the same keys; no verdict depends on the key values. A library without a generator per object is not seeded.
+template <class W> static auto seedMask(W& ws, unsigned s, int) -> decltype(seedMask(ws, s), void()) { ws._random.seed(s, 0); }
+template <class W> static void seedMask(W&, unsigned, long) {}
 static void onFatal(const char* what, const std::string& schedule) {
 	std::string w = what;
 	if (w == "DIVERGED") { fprintf(stderr, "HARNESS ERROR: diverged %s\n", g_case.c_str()); _exit(2); }
@@ -68,6 +71,57 @@ static size_t parseFrameAt(const std::string& s, size_t at, Frame& f, bool* cano
 }
 static size_t parseFrame(const std::string& s, Frame& f, bool* canonical) { return parseFrameAt(s, 0, f, canonical); }
 static std::string pattern(size_t n, int seed) { std::string s(n, 0); unsigned x = 2463534242u + seed * 77; for (size_t i = 0; i < n; i++) { x ^= x << 13; x ^= x >> 17; x ^= x << 5; s[i] = (char)(x >> 8); } if (n) s[0] = (char)(0x41 + seed); return s; }
+
+// payload of a TEXT message: valid UTF-8 (a text message is UTF-8 by definition, RFC 6455 5.6/8.1, and a receiver may fail the connection on anything else), still with
+// NUL, with bytes >= 0x80 (sequences of 2, 3 and 4 bytes at their smallest and largest code points) and of exactly n bytes
+static std::string textPattern(size_t n, int seed) {
+	static const char* const multi[] = { "\xc3\xa9", "\xdf\xbf", "\xc2\x80", "\xe2\x82\xac", "\xef\xbf\xbd", "\xe0\xa0\x80", "\xed\x9f\xbf", "\xf0\x9f\x98\x80", "\xf4\x8f\xbf\xbf", "\xf0\x90\x80\x80" };
+	std::string s; s.reserve(n); unsigned x = 2463534242u + seed * 77;
+	if (n) s += (char)(0x21 + ((unsigned)seed) % 94);
+	while (s.size() < n) {
+		x ^= x << 13; x ^= x >> 17; x ^= x << 5; unsigned r = x >> 8; size_t left = n - s.size();
+		if ((r & 3) == 0) { const char* m = multi[(r >> 2) % 10]; size_t l = strlen(m); if (l <= left) { s += m; continue; } }
+		s += (char)((r >> 6) & 0x7f);
+	}
+	return s;
+}
+static bool isUtf8(const std::string& s) { // reference validator for the generator above (asserted at start-up)
+	for (size_t i = 0; i < s.size();) {
+		unsigned c = (unsigned char)s[i]; int k = c < 0x80 ? 0 : c >= 0xc2 && c <= 0xdf ? 1 : (c & 0xf0) == 0xe0 ? 2 : c >= 0xf0 && c <= 0xf4 ? 3 : -1;
+		if (k < 0 || i + k >= s.size()) return false;
+		for (int j = 1; j <= k; j++) if (((unsigned char)s[i + j] & 0xc0) != 0x80) return false;
+		unsigned d = (unsigned char)s[i + (k ? 1 : 0)];
+		if ((c == 0xe0 && d < 0xa0) || (c == 0xed && d > 0x9f) || (c == 0xf0 && d < 0x90) || (c == 0xf4 && d > 0x8f)) return false;
+		i += k + 1;
+	}
+	return true;
+}
+
+// what a peer got from a sender of the given role, as its receiver sees it: every frame whole, reserved bits clear, canonical length, mask bit of the role; the fragments of a
+// message reassembled under the opcode of its first frame (the statement covers fragmented and unfragmented messages alike: how a sender splits a message is its choice);
+// control frames final and <= 125 bytes, listed where they stand; one Close frame as the very last frame is the closing handshake, not a message (*closeSent).
+// An error text starting with "frame " is a wrong header, any other a broken framing.
+static size_t parseFrameAt(const std::string& s, size_t at, Frame& f, bool* canonical);
+static std::string parseSent(const std::string& got, bool fromClient, std::vector<std::pair<int, std::string> >& items, bool* closeSent = 0) {
+	size_t pos = 0; int nf = 0; bool inMsg = false; int op0 = 0; std::string cur; if (closeSent) *closeSent = false;
+	while (pos < got.size()) {
+		Frame f; bool canon; size_t used = parseFrameAt(got, pos, f, &canon); nf++;
+		if (!used) return fmt("the %d bytes sent are not whole frames (frame %d starts at byte %d)", (int)got.size(), nf, (int)pos);
+		if (f.rsv || f.masked != fromClient || !canon || (f.opcode >= 8 && !f.fin)) return fmt("frame %d sent: fin %d rsv %d opcode %d masked %d canonical-length %d", nf, (int)f.fin, f.rsv, f.opcode, (int)f.masked, (int)canon);
+		pos += used;
+		if (f.opcode >= 8) {
+			if (f.payload.size() > 125) return fmt("control frame %d sent with %d bytes", nf, (int)f.payload.size());
+			if (f.opcode == 8 && pos == got.size() && !inMsg && f.payload.size() != 1) { if (closeSent) *closeSent = true; break; }
+			items.push_back(std::make_pair(f.opcode, f.payload)); continue;
+		}
+		if ((f.opcode == 0) != inMsg) return fmt("frame %d sent: opcode %d %s", nf, f.opcode, inMsg ? "inside a fragmented message" : "(continuation) without a message");
+		if (!inMsg) { op0 = f.opcode; cur.clear(); inMsg = true; }
+		cur += f.payload;
+		if (f.fin) { items.push_back(std::make_pair(op0, cur)); inMsg = false; }
+	}
+	if (inMsg) return fmt("the %d frame(s) sent end inside a fragmented message", nf);
+	return "";
+}
 
 // ---- the model: what a receiver of this byte stream (followed by end of stream) must observe
 struct Model {
@@ -119,7 +173,7 @@ static RecvOut runReceive(const std::vector<std::string>& chunks, bool asClient,
 		{
 			Socket s(fd);
 			WebSocket ws(s, asClient);
-			ws._random.seed(12345);
+			seedMask(ws, 12345, 0);
 			for (int i = 0; i < maxCalls; i++) {
 				if (ws.closed()) break;
 				try {
@@ -160,14 +214,16 @@ static void checkStream(const RecvOut& o, const Model& m, bool asClient, const s
 		std::vector<std::string> all = exp; if (m.closeSeen && !m.reason.empty()) all.push_back(m.reason);
 		bool ok = o.msgs.size() <= all.size(); for (size_t i = 0; ok && i < o.msgs.size(); i++) ok = o.msgs[i] == all[i];
 		if (!ok) report("message_bytes", "frames with a non-minimal length form delivered something that was not sent: " + what, kase);
-		if (o.msgs.size() == exp.size() && !exp.empty()) vf::add(W_NONCANON);
+		if (o.msgs.size() == exp.size() && !exp.empty()) vf::add(W_NONCANON_ACC);
+		if (ok && !exp.empty()) vf::add(W_NONCANON);
 		return;
 	}
 	size_t k = 0; while (k < exp.size() && k < o.msgs.size() && exp[k] == o.msgs[k]) k++;
 	bool same = k == exp.size() && o.msgs.size() == exp.size();
 	// receive() hands out the reason text of a Close frame as its return value (with closed() true and code() set): that is the library's
 	// way to report the reason, it is byte-identical to what the peer sent, and it is the last thing returned
-	if (!same && k == exp.size() && m.closeSeen && !m.reason.empty() && o.msgs.size() == exp.size() + 1 && o.msgs.back() == m.reason) { same = true; vf::add(W_CLOSE_REASON); }
+	if (!same && k == exp.size() && m.closeSeen && !m.reason.empty() && o.msgs.size() == exp.size() + 1 && o.msgs.back() == m.reason) { same = true; vf::add(W_CLOSE_REASON_RET); }
+	if (same && m.closeSeen && !m.reason.empty()) vf::add(W_CLOSE_REASON);
 	if (!same) {
 		if (k == exp.size() && o.msgs.size() > exp.size())
 			report(m.closeSeen ? "phantom_message_at_close" : "phantom_message", fmt("receive() delivered %d message(s) but only %d were completely sent; the extra one has %d bytes: ", (int)o.msgs.size(), (int)exp.size(), (int)o.msgs[k].size()) + what, kase);
@@ -184,6 +240,7 @@ static void checkStream(const RecvOut& o, const Model& m, bool asClient, const s
 			Frame pf; bool canon; size_t used = parseFrameAt(o.written, pos, pf, &canon);
 			if (!used) { bad = "bytes written during receive() are not whole frames"; break; }
 			pos += used;
+			if (pf.opcode == 8 && pf.fin && !pf.rsv && canon && pf.masked == asClient && pf.payload.size() != 1 && pf.payload.size() <= 125 && pos == o.written.size()) break; // the statement does not forbid (nor demand) the closing handshake
 			if (pf.opcode != 10 || !pf.fin || pf.rsv || !canon || pf.masked != asClient) bad = fmt("frame written during receive(): opcode %d fin %d rsv %d masked %d canonical-length %d", pf.opcode, (int)pf.fin, pf.rsv, (int)pf.masked, (int)canon);
 			if (!pf.payload.empty()) got.push_back(pf.payload);
 		}
@@ -236,7 +293,7 @@ static void maskCase(int len, int m, const std::string& kase) {
 	g_case = kase; vf::cur(kase); vf::add(C_EVAL); vf::add(C_DIST); vf::add(W_MASKED);
 	static const unsigned char mv[] = { 0x00, 0x01, 0x80, 0xff };
 	unsigned key = (mv[m & 3] << 24) | (mv[(m >> 2) & 3] << 16) | (mv[(m >> 4) & 3] << 8) | mv[(m >> 6) & 3];
-	std::string bytes = frameBytes(mkFrame(true, 1, true, pattern(len, m), key));
+	std::string bytes = frameBytes(mkFrame(true, 1, true, textPattern(len, m), key));
 	streamCase(bytes, deliver(bytes, 0), false, 0, kase, fmt("text frame, %d bytes, mask key %08x", len, key));
 }
 // control frames that can be put between the frames of a fragmented message
@@ -261,7 +318,7 @@ static void fxCase(int n, const int* c, int op, bool masked, int k1, int p1, int
 	g_case = kase; vf::cur(kase); vf::add(C_EVAL);
 	if (!(0 <= c[0] && c[0] <= c[1] && c[1] <= c[2] && c[2] <= n) || k1 < 0 || k1 >= NCTL || k2 < 0 || k2 >= NCTL) return;
 	vf::add(C_DIST); vf::add(W_FRAG);
-	std::string p = pattern(n, 3);
+	std::string p = op == 1 ? textPattern(n, 3) : pattern(n, 3);
 	std::vector<std::string> parts; int prev = 0; for (int i = 0; i < 3; i++) { parts.push_back(p.substr(prev, c[i] - prev)); prev = c[i]; } parts.push_back(p.substr(prev));
 	std::string bytes; unsigned key = 0x37fa213d;
 	for (int i = 0; i <= 4; i++) {
@@ -314,14 +371,14 @@ static void hostileCase(int b0, int b1, int ext, int cut, int delivery, const st
 // send:<len>:<role>:<form> — 0 send(ByteArray), 1 send(ptr,len,FRAME_TEXT), 2 send(String), 3 send(const char*), 4 send(ptr,len,FRAME_BINARY), 5 FRAME_PING, 6 FRAME_PONG, 7 FRAME_CLOSE, 8 FRAME_CONT
 static void sendCase(int len, bool asClient, int type, const std::string& kase) {
 	g_case = kase; vf::cur(kase); vf::add(C_EVAL); vf::add(C_DIST);
-	std::string p = pattern(len, 5), written, asan;
+	std::string p = type >= 1 && type <= 3 ? textPattern(len, 5) : pattern(len, 5), written, asan; // the text forms carry text
 	if (type == 3) for (size_t i = 0; i < p.size(); i++) if (!p[i]) p[i] = 'n'; // a C string cannot carry NUL
 	if (type >= 2) vf::add(W_SEND_FORMS); if (len > 70000) vf::add(W_BIGLEN);
 	auto body = [&]() {
 		vf::asan_clear(); vnet::reset(); vnet::enable(true); vnet::set_limits(0, (len % 3 == 0 && len < 100000) ? 7 : 0);
 		std::vector<std::string> none(1, std::string(1, 'x')); // keep the connection open (one unread byte) so that closed() is false
 		int fd = vnet::scripted(none);
-		{ Socket s(fd); WebSocket ws(s, asClient); ws._random.seed(777 + len);
+		{ Socket s(fd); WebSocket ws(s, asClient); seedMask(ws, 777 + len, 0);
 		  const byte* d = (const byte*)p.data(); int n = (int)p.size();
 		  switch (type) {
 		  case 0: ws.send(ByteArray(d, n)); break;
@@ -343,6 +400,14 @@ static void sendCase(int len, bool asClient, int type, const std::string& kase) 
 	static const int opcodes[] = { 2, 1, 1, 1, 2, 9, 10, 8, -1 }; // FRAME_CONT: the library cannot send non-final frames, the property says nothing about it: framing and payload only
 	std::string what = fmt("%s of %d bytes as %s", forms[type], len, asClient ? "client" : "server");
 	if (!asan.empty()) report("asan", "ASan " + asan + " in " + what, kase);
+	if (opcodes[type] == 1 || opcodes[type] == 2) { // a data message: exactly one message on the wire, in one frame or in fragments
+		std::vector<std::pair<int, std::string> > it; bool closeSent = false; std::string bad = parseSent(written, asClient, it, &closeSent);
+		if (!bad.empty()) { report(bad.compare(0, 6, "frame ") == 0 ? "send_header" : "send_framing", what + ": " + bad, kase); return; }
+		if (it.size() != 1 || closeSent) { report("send_framing", what + fmt(": output of %d bytes is not exactly one well-formed message (%d message(s) or control frames)", (int)written.size(), (int)it.size() + closeSent), kase); return; }
+		if (it[0].second != p) report("send_payload", what + ": payload after unmasking differs", kase);
+		if (it[0].first != opcodes[type]) report("send_header", what + fmt(": opcode %d", it[0].first), kase);
+		return;
+	}
 	Frame f; bool canon = false; size_t used = parseFrame(written, f, &canon);
 	if (!used || used != written.size()) { report("send_framing", what + fmt(": output of %d bytes is not exactly one well-formed frame", (int)written.size()), kase); return; }
 	if (f.payload != p) report("send_payload", what + ": payload after unmasking differs", kase);
@@ -358,7 +423,7 @@ static void sendVarCase(int k, bool asClient, const std::string& kase) {
 		Var v;
 		switch (k) { case 0: v = 10; break; case 1: v = "hi"; break; case 2: v = Var::ARRAY; v << 1 << 2 << 3; break; case 3: v = Var("a", 1); break; case 4: v = true; break; default: v = Var("type", "info")("n", 10); }
 		int fd = vnet::scripted(std::vector<std::string>(1, "x"));
-		{ Socket s(fd); WebSocket ws(s, asClient); ws._random.seed(31 + k); ws.send(v); }
+		{ Socket s(fd); WebSocket ws(s, asClient); seedMask(ws, 31 + k, 0); ws.send(v); }
 		written = vnet::written(fd);
 		int fd2 = vnet::scripted(std::vector<std::string>(1, written));
 		{ Socket s(fd2); WebSocket ws(s, !asClient); WebSocketMsg m = ws.receive(); Var w = m; equal = w == v; ByteArray b = m; back.assign((const char*)b.data(), b.length());
@@ -370,9 +435,12 @@ static void sendVarCase(int k, bool asClient, const std::string& kase) {
 	vf::add(C_EXEC); vf::add(C_POINTS, x.points.size());
 	std::string what = fmt("send(Var) number %d as %s", k, asClient ? "client" : "server");
 	if (!asan.empty()) report("asan", "ASan " + asan + " in " + what, kase);
-	Frame f; bool canon = false; size_t used = parseFrame(written, f, &canon);
-	if (!used || used != written.size()) { report("send_framing", what + ": output is not exactly one well-formed frame", kase); return; }
-	if (!f.fin || f.rsv || f.opcode != 1 || f.masked != asClient || !canon) report("send_header", what + fmt(": fin %d rsv %d opcode %d masked %d canonical-length %d", (int)f.fin, f.rsv, f.opcode, (int)f.masked, (int)canon), kase);
+	Frame f; f.opcode = -1;
+	{ std::vector<std::pair<int, std::string> > it; bool closeSent = false; std::string bad = parseSent(written, asClient, it, &closeSent);
+	  if (!bad.empty()) { report(bad.compare(0, 6, "frame ") == 0 ? "send_header" : "send_framing", what + ": " + bad, kase); return; }
+	  if (it.size() != 1 || closeSent) { report("send_framing", what + ": output is not exactly one well-formed message", kase); return; }
+	  f.opcode = it[0].first; f.payload = it[0].second; }
+	if (f.opcode != 1) report("send_header", what + fmt(": opcode %d", f.opcode), kase);
 	std::string compact; for (size_t i = 0; i < f.payload.size(); i++) if (!strchr(" \t\r\n", f.payload[i])) compact += f.payload[i];
 	if (json[k < 5 ? k : 5] && compact != json[k]) report("send_payload", what + ": text frame carries '" + f.payload + "' instead of the JSON text " + json[k], kase);
 	if (back != f.payload || !equal || !docok) report("var_message", what + ": the message '" + f.payload + "' received by the peer and converted with operator Var is not equal to the Var sent", kase);
@@ -396,7 +464,7 @@ static void handshakeJob(int bound, int payloadLen, const std::string* replay, i
 			Acceptor acc; acc.srv = &srv; acc.lst = &lst; acc.served = 0; acc.start();
 			std::string reply; bool ok; std::string p = pattern(payloadLen, 9);
 			{
-				WebSocket ws; ws._random.seed(4242);
+				WebSocket ws; seedMask(ws, 4242, 0);
 				ok = ws.connect("127.0.0.1", 9000);
 				if (ok) { ws.send(ByteArray((const byte*)p.data(), (int)p.size())); WebSocketMsg m = ws.receive(); ByteArray b = m; reply.assign((const char*)b.data(), b.length()); ws.close(); }
 			}
@@ -421,6 +489,20 @@ static void handshakeJob(int bound, int payloadLen, const std::string* replay, i
 	{ static int cst = vf::counter("states"); vf::add(cst, st.distinct_states); }
 	vsched::set_early_timeouts(true);
 }
+// the values of the field `name` (compared without case, RFC 7230 3.2) in a header block, optional whitespace around the value removed
+static std::vector<std::string> fieldValues(const std::string& block, const std::string& name) {
+	std::vector<std::string> r; size_t pos = block.find("\r\n"); // behind the status line
+	while (pos != std::string::npos && pos + 2 < block.size()) {
+		size_t a = pos + 2, e = block.find("\r\n", a); std::string line = block.substr(a, e == std::string::npos ? std::string::npos : e - a); pos = e;
+		size_t c = line.find(':'); if (c != name.size()) continue;
+		bool eq = true; for (size_t i = 0; i < c && eq; i++) eq = tolower((unsigned char)line[i]) == tolower((unsigned char)name[i]);
+		if (!eq) continue;
+		size_t b = c + 1, z = line.size(); while (b < z && (line[b] == ' ' || line[b] == '\t')) b++; while (z > b && (line[z - 1] == ' ' || line[z - 1] == '\t')) z--;
+		r.push_back(line.substr(b, z - b));
+	}
+	return r;
+}
+static bool carriesAccept(const std::string& headerBlock, const std::string& key) { std::vector<std::string> v = fieldValues(headerBlock, "Sec-WebSocket-Accept"); return v.size() == 1 && v[0] == sha1b64(key + "258EAFA5-E914-47DA-95CA-C5AB0DC85B11"); }
 // accept key on the wire: a scripted client request with a known key; the server's 101 response must carry the RFC 6455 accept value.
 // akey:<k> is the single classic shape; akx:<k>:<casing>:<sep>:<conn>:<via> varies what RFC 7230 leaves free: the case of the field names
 // (0 as in the RFC, 1 lower, 2 upper), the optional whitespace after the colon (0 ": ", 1 ":", 2 ":  ", 3 ":\t"), other tokens in Connection,
@@ -434,8 +516,7 @@ static void acceptKeyCase(int k, int casing, int sep, int conn, int via, bool ex
 	std::string req = "GET /chat HTTP/1.1\r\n";
 	for (int i = 0; i < 5; i++) { std::string nm = names[i]; for (size_t j = 0; j < nm.size(); j++) nm[j] = casing == 1 ? (char)tolower(nm[j]) : casing == 2 ? (char)toupper(nm[j]) : nm[j]; req += nm + seps[sep] + vals[i] + "\r\n"; }
 	req += "\r\n";
-	std::string echo;
-	if (ext) { vf::add(W_AKX); if (sep == 1) vf::add(W_AKX_NOSPACE); if (via) vf::add(W_AKX_HTTP); req += frameBytes(mkFrame(true, 1, true, "ping!", 0x0badf00du + k)); echo = frameBytes(mkFrame(true, 2, false, "ping!")); }
+	if (ext) { vf::add(W_AKX); if (sep == 1) vf::add(W_AKX_NOSPACE); if (via) vf::add(W_AKX_HTTP); req += frameBytes(mkFrame(true, 1, true, "ping!", 0x0badf00du + k)); }
 	std::string written, asan;
 	auto body = [&]() {
 		vf::asan_clear(); vnet::reset(); vnet::enable(true); int fd = vnet::scripted(std::vector<std::string>(1, req));
@@ -445,12 +526,14 @@ static void acceptKeyCase(int k, int casing, int sep, int conn, int via, bool ex
 	vsched::set_early_timeouts(false);
 	vsched::Result x = vsched::run_once(std::vector<uint8_t>(), body, 100000); vf::add(C_EXEC); vf::add(C_POINTS, x.points.size());
 	vsched::set_early_timeouts(true);
-	std::string want = "Sec-WebSocket-Accept: " + sha1b64(key + "258EAFA5-E914-47DA-95CA-C5AB0DC85B11") + "\r\n";
+	std::string want = "Sec-WebSocket-Accept: " + sha1b64(key + "258EAFA5-E914-47DA-95CA-C5AB0DC85B11") + "\r\n"; // for the message only
 	std::string shape = ext ? fmt(" (field names %s, '%s' after the name, Connection: %s, %s)", casing == 1 ? "lower case" : casing == 2 ? "upper case" : "as in the RFC", sep == 3 ? ":\\t" : seps[sep], conns[conn], via ? "through HttpServer::link" : "WebSocketServer") : "";
 	if (!asan.empty()) report("asan", "ASan " + asan + " in server handshake" + shape, kase);
 	size_t he = written.find("\r\n\r\n");
-	if (written.find("HTTP/1.1 101") != 0 || he == std::string::npos || written.substr(0, he + 2).find(want) == std::string::npos) { report("accept_key", "server handshake response for key " + key + shape + " does not carry '" + want.substr(0, want.size() - 2) + "': " + vf::hex(written.substr(0, 200)), kase); return; }
-	if (ext && written.substr(he + 4) != echo) report("handshake", "the frame that followed the handshake request" + shape + " was not echoed behind the response: " + vf::hex(written.substr(he + 4, 60)), kase);
+	if (written.find("HTTP/1.1 101") != 0 || he == std::string::npos || !carriesAccept(written.substr(0, he + 2), key)) { report("accept_key", "server handshake response for key " + key + shape + " does not carry '" + want.substr(0, want.size() - 2) + "': " + vf::hex(written.substr(0, 200)), kase); return; }
+	bool echoed = true;
+	if (ext) { std::vector<std::pair<int, std::string> > it; echoed = parseSent(written.substr(he + 4), false, it).empty() && it.size() == 1 && it[0].first == 2 && it[0].second == "ping!"; }
+	if (!echoed) report("handshake", "the frame that followed the handshake request" + shape + " was not echoed behind the response: " + vf::hex(written.substr(he + 4, 60)), kase);
 }
 // conn:<kind>:<cut> — WebSocket::connect() against a listener that answers the request with a fixed response ended after <cut> bytes (-1: complete, then a text
 // frame; the client's reply is read back). connect() may only succeed when the whole header block of a 101 response with the two upgrade fields has arrived.
@@ -493,7 +576,7 @@ static void connectCase(int kind, int cut, const std::string& kase) {
 			RawPeer peer; peer.lst = &lst; peer.kind = kind; peer.cut = cut; peer.full = 0; peer.okKind = false; peer.start();
 			std::string reply; bool closedAfter = true;
 			{
-				WebSocket ws; ws._random.seed(99);
+				WebSocket ws; seedMask(ws, 99, 0);
 				ok = ws.connect("127.0.0.1", 9000);
 				if (ok && cut < 0) { WebSocketMsg m = ws.receive(); ByteArray b = m; reply.assign((const char*)b.data(), b.length()); ws.send(String("from-client")); }
 				if (!ok) closedAfter = ws.closed();
@@ -503,8 +586,8 @@ static void connectCase(int kind, int cut, const std::string& kase) {
 			if (!ok && !closedAfter) verdict += "connect() failed but closed() is false; ";
 			if (ok && cut < 0) {
 				if (reply != "hello") verdict += fmt("the text frame sent behind the 101 response arrived as %d bytes; ", (int)reply.size());
-				Frame f; bool canon; size_t used = parseFrame(peer.got, f, &canon);
-				if (!used || used != peer.got.size() || !f.fin || f.opcode != 1 || !f.masked || !canon || f.payload != "from-client") verdict += "the client's text message did not reach the peer as one masked text frame; ";
+				std::vector<std::pair<int, std::string> > fr; std::string bad = parseSent(peer.got, true, fr);
+				if (!bad.empty() || fr.size() != 1 || fr[0].first != 1 || fr[0].second != "from-client") verdict += "the client's text message did not reach the peer as one masked text message (" + (bad.empty() ? fmt("%d message(s)", (int)fr.size()) : bad) + "); ";
 			}
 			lst.close();
 		}
@@ -537,7 +620,7 @@ static void runHist(const std::function<void()>& body) {
 }
 static const int PROBE[] = { 1, 125, 126, 300, 65535, 65536, 70000 }; enum { NPROBE = 7 };
 static std::string fragProbe(bool masked, bool withPing, unsigned key) { // a text message of 126 + 65536 bytes in two frames (16-bit and 64-bit length form), optionally a ping 'pi' in between
-	std::string p = pattern(126 + 65536, 4), s = frameBytes(mkFrame(false, 1, masked, p.substr(0, 126), key));
+	std::string p = textPattern(126 + 65536, 4), s = frameBytes(mkFrame(false, 1, masked, p.substr(0, 126), key));
 	if (withPing) s += frameBytes(mkFrame(true, 9, masked, "pi", key + 1));
 	return s + frameBytes(mkFrame(true, 0, masked, p.substr(126), key + 2));
 }
@@ -599,17 +682,6 @@ static void recvAll(WebSocket& ws, int maxCalls, RecvOut& o) {
 	}
 	o.closedAtEnd = ws.closed(); o.code = ws.code();
 }
-// frames a peer got from a sender of the given role: every frame final, canonical, mask bit of the role; returns the payloads by opcode
-static std::string parseSent(const std::string& got, bool fromClient, std::vector<std::pair<int, std::string> >& frames) {
-	size_t pos = 0;
-	while (pos < got.size()) {
-		Frame f; bool canon; size_t used = parseFrameAt(got, pos, f, &canon);
-		if (!used) return fmt("the %d bytes sent are not whole frames (frame %d starts at byte %d)", (int)got.size(), (int)frames.size() + 1, (int)pos);
-		if (!f.fin || f.rsv || f.masked != fromClient || !canon) return fmt("frame %d sent: fin %d rsv %d masked %d canonical-length %d", (int)frames.size() + 1, (int)f.fin, f.rsv, (int)f.masked, (int)canon);
-		frames.push_back(std::make_pair(f.opcode, f.payload)); pos += used;
-	}
-	return "";
-}
 static void clientHistCase(const std::string& ops, const std::string& kase) {
 	g_case = kase; vf::cur(kase); vf::add(C_EVAL); vf::add(C_DIST);
 	for (size_t i = 0; i < ops.size(); i++) if (!strchr(CH_OPS, ops[i])) { fprintf(stderr, "s_c11_ws: unknown use '%c' in %s\n", ops[i], kase.c_str()); exit(2); }
@@ -617,7 +689,7 @@ static void clientHistCase(const std::string& ops, const std::string& kase) {
 	auto body = [&]() {
 		vf::asan_clear(); vnet::reset(); vnet::enable(true); vnet::set_limits(0, 0);
 		{
-			WebSocket ws; ws._random.seed(2024);
+			WebSocket ws; seedMask(ws, 2024, 0);
 			std::string done;
 			auto failed = [&]() { return g_reports != before; };
 			auto mustFail = [&](bool ok, const std::string& what) { if (ok || !ws.closed()) report("connect_result", std::string(ok ? "connect() returned true" : "connect() failed but closed() is false") + ": " + what + ", " + histName(done), kase); if (ok) ws.close(); };
@@ -740,19 +812,20 @@ static void serverHistCase(int via, int pre, const std::string& ops, const std::
 				std::string written = vnet::written(fd);
 				if (isWs) {
 					std::string w = what + (op == '!' && pre ? " behind a plain request on the same connection" : "") + (via ? ", through HttpServer::link" : "") + ", server " + histName(done);
-					std::string want = "Sec-WebSocket-Accept: " + sha1b64(key + "258EAFA5-E914-47DA-95CA-C5AB0DC85B11") + "\r\n";
+					std::string want = "Sec-WebSocket-Accept: " + sha1b64(key + "258EAFA5-E914-47DA-95CA-C5AB0DC85B11") + "\r\n"; // for the message only
 					size_t h0 = written.find("HTTP/1.1 101"), he = h0 == std::string::npos ? h0 : written.find("\r\n\r\n", h0);
-					if (h0 == std::string::npos || (h0 != 0 && !(op == '!' && pre)) || he == std::string::npos || written.substr(h0, he + 2 - h0).find(want) == std::string::npos) { report("accept_key", "server handshake response for key " + key + " does not carry '" + want.substr(0, want.size() - 2) + "': " + vf::hex(written.substr(0, 200)) + ": " + w, kase); break; }
+					if (h0 == std::string::npos || (h0 != 0 && !(op == '!' && pre)) || he == std::string::npos || !carriesAccept(written.substr(h0, he + 2 - h0), key)) { report("accept_key", "server handshake response for key " + key + " does not carry '" + want.substr(0, want.size() - 2) + "': " + vf::hex(written.substr(0, 200)) + ": " + w, kase); break; }
 					if (srv.calls != calls0 + 1) { report("handshake", fmt("serve(WebSocket&) was called %d times for one connection: ", srv.calls - calls0) + w, kase); break; }
 					Model m = modelOf(frames, false);
 					RecvOut o; o.msgs = srv.seen; o.emptyReturns = 0; o.negLen = o.badAlloc = false; o.closedAtEnd = srv.closedEnd; o.code = srv.code;
 					// what the server wrote behind its response: pongs (compared by checkStream) and the echoes
 					std::string rest = written.substr(he + 4), echoes; std::vector<std::string> echoed; size_t pos = 0; bool whole = true;
-					while (pos < rest.size()) { Frame f; bool canon; size_t used = parseFrameAt(rest, pos, f, &canon); if (!used) { whole = false; break; } if (f.opcode == 10) o.written += rest.substr(pos, used); else { echoes += rest.substr(pos, used); echoed.push_back(f.payload); } pos += used; }
+					while (pos < rest.size()) { Frame f; bool canon; size_t used = parseFrameAt(rest, pos, f, &canon); if (!used) { whole = false; break; } if (f.opcode == 10 || f.opcode == 8) o.written += rest.substr(pos, used); else { echoes += rest.substr(pos, used); echoed.push_back(f.payload); } pos += used; }
 					checkStream(o, m, false, kase, w);
 					if (m.strict && g_reports == before) {
-						std::string wantEcho; for (size_t k = 0; k < m.msgs.size(); k++) wantEcho += frameBytes(mkFrame(true, 2, false, m.msgs[k]));
-						if (!whole || echoes != wantEcho) report("handshake", fmt("the %d message(s) were not echoed behind the response as %d unmasked binary frames with canonical lengths (%d frame(s) written%s): ", (int)m.msgs.size(), (int)m.msgs.size(), (int)echoed.size(), whole ? "" : ", then bytes that are no frame") + w, kase);
+						std::vector<std::pair<int, std::string> > it; std::string bad = whole ? parseSent(echoes, false, it) : std::string("bytes that are no frame"); bool okEcho = bad.empty() && it.size() == m.msgs.size();
+						for (size_t k = 0; okEcho && k < it.size(); k++) okEcho = it[k].first == 2 && it[k].second == m.msgs[k];
+						if (!okEcho) report("handshake", fmt("the %d message(s) were not echoed behind the response as %d unmasked binary messages with canonical lengths (%d frame(s) written%s): ", (int)m.msgs.size(), (int)m.msgs.size(), (int)echoed.size(), bad.empty() ? "" : (", " + bad).c_str()) + w, kase);
 						compared += (int)m.msgs.size();
 					}
 				}
@@ -788,7 +861,7 @@ static void bothHistCase(const std::string& ops, const std::string& kase) {
 			acc.start();
 			std::vector<std::string> sent;
 			{
-				WebSocket ws; ws._random.seed(777); std::string done;
+				WebSocket ws; seedMask(ws, 777, 0); std::string done;
 				auto echo = [&](int len, int seed) { std::string p = pattern(len, seed); sent.push_back(p); ws.send(ByteArray((const byte*)p.data(), (int)p.size())); WebSocketMsg m = ws.receive(); ByteArray b = m; compared++;
 					if (b.length() != len || memcmp(b.data(), p.data(), len) != 0) verdict += fmt("client received %d bytes instead of its %d-byte echo (%s); ", b.length(), len, histName(done).c_str()); };
 				for (size_t i = 0; i <= ops.size() && verdict.empty(); i++) {
@@ -870,9 +943,9 @@ int main(int argc, char** argv) {
 	C_EVAL = vf::counter("evaluations"); C_DIST = vf::counter("distinct_nontrivial"); C_EXEC = vf::counter("traces"); C_POINTS = vf::counter("transitions"); vf::counter("states");
 	W_BADALLOC = vf::counter("w.absurd_lengths_refused_by_allocator"); W_LEN16 = vf::counter("w.frames_with_16bit_length"); W_LEN64 = vf::counter("w.frames_with_64bit_length"); W_MASKED = vf::counter("w.masked_frames"); W_FRAG = vf::counter("w.fragmented_messages"); W_PING_BETWEEN = vf::counter("w.ping_between_fragments");
 	W_HOSTILE_CLOSED = vf::counter("w.hostile_inputs_without_message"); W_HOSTILE_MSG = vf::counter("w.hostile_inputs_yielding_a_message"); W_NEG64 = vf::counter("w.length_fields_with_bit31_set"); W_HANDSHAKE = vf::counter("w.handshake_executions"); W_PREEMPT = vf::counter("w.executions_with_preemption");
-	W_CUT = vf::counter("w.truncated_streams"); W_CUT_INFRAME = vf::counter("w.streams_ending_inside_a_frame"); W_CUT_MIDMSG = vf::counter("w.streams_ending_between_fragments"); W_CLOSE = vf::counter("w.streams_with_close_frame"); W_CLOSE_REASON = vf::counter("w.close_reason_returned_by_receive"); W_CLOSE_MID = vf::counter("w.close_between_fragments"); W_CLOSE_CODE = vf::counter("w.close_codes_compared");
+	W_CUT = vf::counter("w.truncated_streams"); W_CUT_INFRAME = vf::counter("w.streams_ending_inside_a_frame"); W_CUT_MIDMSG = vf::counter("w.streams_ending_between_fragments"); W_CLOSE = vf::counter("w.streams_with_close_frame"); W_CLOSE_REASON = vf::counter("w.close_frames_with_reason_text_compared"); W_CLOSE_REASON_RET = vf::counter("w.close_reason_returned_by_receive"); W_CLOSE_MID = vf::counter("w.close_between_fragments"); W_CLOSE_CODE = vf::counter("w.close_codes_compared");
 	W_PONG_IN = vf::counter("w.pong_frames_received"); W_PING_EMPTY = vf::counter("w.empty_pings"); W_PING125 = vf::counter("w.pings_of_125_bytes"); W_TWO_CTL = vf::counter("w.streams_with_two_control_frames"); W_PONGS_CHECKED = vf::counter("w.streams_with_pongs_compared");
-	W_ACC = vf::counter("w.messages_seen_through_string_accessors"); W_NUL = vf::counter("w.messages_with_nul_seen_through_accessors"); W_NONCANON = vf::counter("w.noncanonical_length_forms_accepted"); W_BIGFRAG = vf::counter("w.fragments_of_126_bytes_or_more"); W_BIGLEN = vf::counter("w.payloads_above_70000"); W_CHUNKED = vf::counter("w.payloads_in_4096_byte_chunks");
+	W_ACC = vf::counter("w.messages_seen_through_string_accessors"); W_NUL = vf::counter("w.messages_with_nul_seen_through_accessors"); W_NONCANON = vf::counter("w.noncanonical_length_forms_compared"); W_NONCANON_ACC = vf::counter("w.noncanonical_length_forms_accepted"); W_BIGFRAG = vf::counter("w.fragments_of_126_bytes_or_more"); W_BIGLEN = vf::counter("w.payloads_above_70000"); W_CHUNKED = vf::counter("w.payloads_in_4096_byte_chunks");
 	W_SEND_FORMS = vf::counter("w.send_overloads_and_frame_types"); W_VAR = vf::counter("w.var_messages"); W_AKX = vf::counter("w.handshake_request_shapes"); W_AKX_NOSPACE = vf::counter("w.requests_without_space_after_colon"); W_AKX_HTTP = vf::counter("w.handshakes_through_httpserver_link");
 	W_CONN = vf::counter("w.connects_to_scripted_server"); W_CONN_FAIL = vf::counter("w.connects_refused"); W_CONN_OK = vf::counter("w.connects_accepted"); W_ECHO_BIG = vf::counter("w.large_echoes_over_a_filling_pipe"); W_HOSTILE_STRICT = vf::counter("w.hostile_streams_compared_exactly");
 	W_RH_CLIENT = vf::counter("w.reuse_client_histories"); W_RH_COMPARED = vf::counter("w.reuse_messages_compared_on_reused_objects"); W_RH_SENT = vf::counter("w.reuse_frames_sent_by_reused_clients"); W_RH_REFUSED = vf::counter("w.reuse_connected_after_refused_connect");
@@ -881,6 +954,7 @@ int main(int argc, char** argv) {
 	vsched::set_fatal_handler(onFatal);
 	vsched::set_state_probe(vnet::state_hash);
 	if (sha1b64("dGhlIHNhbXBsZSBub25jZQ==258EAFA5-E914-47DA-95CA-C5AB0DC85B11") != "s3pPLMBiTxaQ9kYGzzhZRbK+xOo=") { fprintf(stderr, "HARNESS ERROR: reference SHA-1/base64 fails the RFC 6455 vector\n"); return 2; }
+	for (int n = 0; n <= 300; n++) for (int sd = 0; sd < 8; sd++) { std::string tp = textPattern(n, sd * 37); if (tp.size() != (size_t)n || !isUtf8(tp) || isUtf8(tp + "\xc0") || isUtf8("\xed\xa0\x80")) { fprintf(stderr, "HARNESS ERROR: textPattern(%d) is not UTF-8 of that length\n", n); return 2; } }
 	if (vf::opt.replay) { vf::parallel(1, [&](uint64_t) { run_case(vf::opt.kase); }); return vf::finish(); }
 	bool T = vf::opt.thorough();
 	// (1) payload lengths
